@@ -27,7 +27,7 @@ from pyvc.contracts import FnContract
 from pyvc.ops import Unsupported
 from pyvc.state import HeapObj
 from pyvc.symex import Executor
-from pyvc.values import NONE, VBool, VExt, VInt, VNoneT, VRef, VStr, VTuple, VUnk, fresh_name
+from pyvc.values import NONE, VBool, VExt, VInt, VMod, VNoneT, VRef, VSeq, VStr, VTuple, VUnk, fresh_name
 from pyvc.verify import Maker
 
 HTML = "sharepoint2text/parsing/extractors/html_extractor.py"
@@ -230,6 +230,94 @@ class C17Executor(Executor):
             return n, (lambda i: VTuple([VStr(z3.String(fresh_name("attr_name"))), VUnk("attr_value")]))
         return super().seq_view(st, it)
 
+    def resolve_dotted(self, dotted):
+        """`from pkg import module [as alias]` / `import pkg.module`: a repository MODULE is a module value (attribute access
+        then resolves its functions / classes), whatever the import style."""
+        import os
+        parts = dotted.split(".")
+        if parts[0] == "sharepoint2text" and dotted not in self.reg.ext_models and dotted not in self.reg.fn:
+            rel = "/".join(parts)
+            if os.path.exists(os.path.join(self.module.repo, rel + ".py")) or os.path.exists(os.path.join(self.module.repo, rel, "__init__.py")):
+                return VMod(dotted)
+        return super().resolve_dotted(dotted)
+
+    # ---- round 3: what the container / parser glue functions need (contracts/C17_glue.py) ----
+    def get_slice(self, st, base, sl, node):
+        if isinstance(base, VExt) and base.sort == "Bytes" and sl.step is None:
+            from contracts import C17_glue as G
+            lo = self.ev(sl.lower, st)[0][1] if sl.lower is not None else None
+            if sl.upper is None and isinstance(lo, VInt) and lo.const() is not None:
+                return [(st, VExt("Bytes", G.BCUT(base.t, z3.IntVal(lo.const()))))]
+            return [(st, VExt("Bytes"))]          # some other part of the bytes: not the document any more
+        return super().get_slice(st, base, sl, node)
+
+    def _pure_comprehension(self, n):
+        """Element / conditions only read the loop variables and call methods on them (str methods in the code at hand):
+        evaluating it over an unknown iterable yields an unknown value and touches nothing that is tracked."""
+        targets = {x.id for g in n.generators for x in ast.walk(g.target) if isinstance(x, ast.Name)}
+        parts = [getattr(n, "elt", None), getattr(n, "key", None), getattr(n, "value", None)] + [c for g in n.generators for c in g.ifs]
+        for p_ in parts:
+            if p_ is None:
+                continue
+            for x in ast.walk(p_):
+                if isinstance(x, (ast.NamedExpr, ast.Yield, ast.YieldFrom, ast.Await, ast.Lambda)):
+                    return False
+                if isinstance(x, ast.Call):
+                    r = x.func
+                    while isinstance(r, (ast.Attribute, ast.Subscript, ast.Call)):
+                        r = r.value if not isinstance(r, ast.Call) else r.func
+                    if not (isinstance(r, ast.Name) and r.id in targets and isinstance(x.func, ast.Attribute)):
+                        return False
+                if isinstance(x, ast.Name) and isinstance(x.ctx, ast.Load) and x.id not in targets:
+                    return False
+        return True
+
+    def _opaque_comp(self, n, st):
+        if len(n.generators) == 1 and self._pure_comprehension(n):
+            r = self.ev(n.generators[0].iter, st)
+            if len(r) == 1 and self.concrete_items(r[0][0], r[0][1]) is None and \
+                    (isinstance(r[0][1], VUnk) or self._ol(r[0][0], r[0][1]) is not None):
+                self.exc_any(r[0][0].fork(), f"{self.loc(n)} comprehension over an unknown iterable")
+                return [(r[0][0], VUnk("comprehension"))]
+        return None
+
+    def e_GeneratorExp(self, n, st):
+        return self._opaque_comp(n, st) or super().e_GeneratorExp(n, st)
+
+    def e_ListComp(self, n, st):
+        return self._opaque_comp(n, st) or super().e_ListComp(n, st)
+
+    def on_yield(self, st, v, node):
+        """A yield inside a loop that is cut by an invariant is invisible in the function's final state: the contract's
+        per-yield clause (`yield_check`, pack-local) is therefore emitted as a VC at the yield itself."""
+        st.ghost["yields"] = st.ghost.get("yields", ()) + (v,)
+        chk = getattr(self.contract, "yield_check", None) if self.contract is not None else None
+        if chk is not None:
+            label, fn = chk
+            self.add_vc("yield", label, st.pc, fn(self, st, v), loc=self.loc(node))
+
+    def e_YieldFrom(self, n, st):
+        out = []
+        for (s, v) in self.ev(n.value, st):
+            items = self.concrete_items(s, v)
+            if items is not None:
+                s.yielded = s.yielded + items          # (an inlined local generator: each yield was seen by on_yield)
+            else:
+                s.ghost["yield_count_unknown"] = True
+                if isinstance(v, VSeq):
+                    self.on_yield(s, v.elem(z3.Int(fresh_name("k"))), n)     # an arbitrary element of the delegated sequence
+                elif not (isinstance(v, VUnk) and v.tag == "generator"):
+                    self.on_yield(s, VUnk("yield-from"), n)
+            out.append((s, NONE))
+        return out
+
+    def havoc_call(self, st, what, args, node):
+        for a in args:
+            if isinstance(a, VExt) and a.sort == "Parser":
+                from contracts import C17_glue as G
+                G.log(st, "other", a, f"passed to {what} at {self.loc(node)}")
+        return super().havoc_call(st, what, args, node)
+
     def b_super(self, st, args, kwargs, node):
         return [(st, VExt("HTMLParserBase"))]
 
@@ -359,6 +447,8 @@ STR_HAS = z3.Function("str_contains", S, S, z3.BoolSort())
 STR_STARTS = z3.Function("str_startswith", S, S, z3.BoolSort())
 EXECUTOR = C17Executor
 EXECUTOR_KW = {f"{MSG}::_looks_like_html": {"opaque_str": True}}
+from contracts import C17_glue as _G  # noqa: E402
+EXECUTOR_KW.update({t: dict(_G.GLUE_KW) for t in _G.TARGETS})
 
 
 def m_lower(ex, st, args, kwargs, node):
@@ -668,6 +758,9 @@ def contracts(reg):
         modifies=("self",),
     ))
     out.append(looks_like_html_contract())
+    from contracts import C17_glue
+    C17_glue.install(reg)
+    out.extend(C17_glue.contracts())
     return out
 
 
@@ -746,6 +839,11 @@ def post_report(c, rep):
             if o["status"] == "refuted":
                 o["status"] = "unknown"
                 o["reason"] = "solver model interprets the uninterpreted regex / lstrip / lower functions: not a refutation by itself; " + (o.get("reason") or "")
+    if c.target in _G.TARGETS:
+        for o in rep.obligations:
+            if o["status"] == "refuted":
+                o["status"] = "unknown"
+                o["reason"] = "failed over the abstract parser / container model (havoc of unmodelled calls): not a refutation by itself; " + (o.get("reason") or "")
 
 
 # --------------------------------------------------------------------- lemmas --
@@ -834,85 +932,8 @@ def policy(repo, tier):
         if init is not None:
             fns.append(dict(m.fn_info(f"{cls}.__init__"), obligations=1))
 
-    # reuse sites --------------------------------------------------------------------------------
-    def builder_use(m, qual, cls, origin, feed_arg=None):
-        """`p = cls(); p.feed(x)` in function `qual`, cls bound to `origin`; returns (ok, detail, var)."""
-        fn = m.functions.get(qual)
-        if fn is None:
-            return False, f"{qual} missing", None
-        if origin is not None and m.imports.get(cls) != origin:
-            return False, f"{cls} imported from {m.imports.get(cls)}", None
-        if origin is None and cls not in m.classes:
-            return False, f"{cls} not defined here", None
-        news = [n for n in ast.walk(fn) if isinstance(n, ast.Assign) and isinstance(n.value, ast.Call) and dotted(n.value.func) == cls
-                and len(n.targets) == 1 and isinstance(n.targets[0], ast.Name)]
-        if len(news) != 1:
-            return False, f"{len(news)} constructions of {cls}", None
-        var = news[0].targets[0].id
-        feeds = [c_ for c_ in _calls(fn) if dotted(c_.func) == f"{var}.feed"]
-        stores = [n for n in ast.walk(fn) if isinstance(n, ast.Name) and n.id == var and isinstance(n.ctx, ast.Store)]
-        ok = len(feeds) == 1 and len(stores) == 1 and len(feeds[0].args) == 1
-        # The assumed tokenizer contract (DESIGN Appendix B) is that of feed(): an unterminated construct at the end of the
-        # input (e.g. `<!-- ...` without `-->`) stays buffered.  close() flushes such a remainder through handle_data, i.e.
-        # comment content would arrive as visible text -- a definite violation of the assumption, reported as such.
-        closes = [c_ for c_ in _calls(fn) if dotted(c_.func) in (f"{var}.close", f"{var}.goahead")]
-        if closes:
-            obls.append(ground_obligation(f"C17/{m.rel.split('/')[-1]}::{qual}/call-site#parser-is-fed-but-never-closed-(unterminated-markup-stays-hidden)",
-                                          False, f"line {closes[0].lineno}: {ast.unparse(closes[0])} flushes an unterminated comment / declaration as text", m.rel))
-        else:
-            obls.append(ground_obligation(f"C17/{m.rel.split('/')[-1]}::{qual}/call-site#parser-is-fed-but-never-closed-(unterminated-markup-stays-hidden)",
-                                          True, "", m.rel))
-        return ok, f"{var} = {cls}(); {len(feeds)} feed call(s)", var
-
-    ok, why, var = builder_use(h, "read_html", HCLS, None)
-    if ok:
-        fn = h.functions["read_html"]
-        trees = [n for n in ast.walk(fn) if isinstance(n, ast.Assign) and isinstance(n.value, ast.Call) and dotted(n.value.func) == f"{var}.get_tree"]
-        ext = [c_ for c_ in _calls(fn) if dotted(c_.func) == "_HtmlTextExtractor"]
-        ok = len(trees) == 1 and len(ext) == 1 and len(ext[0].args) == 1 and ast.unparse(ext[0].args[0]) == ast.unparse(trees[0].targets[0])
-        why += f"; tree -> _HtmlTextExtractor: {ok}"
-        fns.append(dict(h.fn_info("read_html"), obligations=1))
-    P("C17/html_extractor.py::read_html/call-site#text-comes-from-the-tree-the-contracted-builder-fills", ok, why)
-
-    ok, why, var = builder_use(ms, "_html_to_text", HCLS, "sharepoint2text.parsing.extractors.html_extractor._HtmlTreeBuilder")
-    if ok:
-        fn = ms.functions["_html_to_text"]
-        trees = [n for n in ast.walk(fn) if isinstance(n, ast.Assign) and isinstance(n.value, ast.Call) and dotted(n.value.func) == f"{var}.get_tree"]
-        ext = [c_ for c_ in _calls(fn) if dotted(c_.func) == "_HtmlTextExtractor"]
-        ok = len(trees) == 1 and len(ext) == 1 and len(ext[0].args) == 1 and ast.unparse(ext[0].args[0]) == ast.unparse(trees[0].targets[0]) \
-            and ms.imports.get("_HtmlTextExtractor") == "sharepoint2text.parsing.extractors.html_extractor._HtmlTextExtractor"
-        why += f"; tree -> html_extractor._HtmlTextExtractor: {ok}"
-        fns.append(dict(ms.fn_info("_html_to_text"), obligations=1))
-    P("C17/msg_email_extractor.py::_html_to_text/call-site#mail-body-goes-through-the-same-builder", ok, why)
-
-    fn = mh.functions.get("read_mhtml")
-    ok, why = False, "read_mhtml missing"
-    if fn is not None:
-        loops = [n for n in ast.walk(fn) if isinstance(n, ast.For) and isinstance(n.iter, ast.Call) and dotted(n.iter.func) == "read_html"]
-        ys = [n for n in ast.walk(fn) if isinstance(n, ast.Yield)]
-        in_loop = [y for y in ys if any(y in list(ast.walk(l)) for l in loops)]
-        other = [y for y in ys if y not in in_loop]
-        ok = mh.imports.get("read_html") == "sharepoint2text.parsing.extractors.html_extractor.read_html" and len(loops) == 1 \
-            and isinstance(loops[0].target, ast.Name) and in_loop and all(isinstance(y.value, ast.Name) and y.value.id == loops[0].target.id for y in in_loop) \
-            and all(isinstance(y.value, ast.Call) and dotted(y.value.func) == "HtmlContent" and
-                    {k.arg: ast.unparse(k.value) for k in y.value.keywords}.get("content") == "''" for y in other)
-        why = f"{len(loops)} read_html loop(s), {len(in_loop)} pass-through yield(s), {len(other)} empty-content yield(s)"
-        fns.append(dict(mh.fn_info("read_mhtml"), obligations=1))
-    P("C17/mhtml_extractor.py::read_mhtml/call-site#yields-exactly-what-read_html-yields", ok, why)
-
-    ok, why, var = builder_use(e, "_extract_chapter", ECLS, None)
-    if ok:
-        fn = e.functions["_extract_chapter"]
-        texts = [n for n in ast.walk(fn) if isinstance(n, ast.Assign) and isinstance(n.value, ast.Call) and dotted(n.value.func) == f"{var}.get_text"]
-        ok = len(texts) == 1
-        if ok:
-            tv = ast.unparse(texts[0].targets[0])
-            kws = [k for c_ in _calls(fn) if dotted(c_.func) == "EpubChapter" for k in c_.keywords if k.arg == "text"]
-            ok = len(kws) == 1 and ast.unparse(kws[0].value) == tv
-        why += f"; chapter text = parser.get_text(): {ok}"
-        fns.append(dict(e.fn_info("_extract_chapter"), obligations=1))
-    P("C17/epub_extractor.py::_extract_chapter/call-site#chapter-text-comes-from-the-contracted-extractor", ok, why)
-
+    # reuse sites: read_html, msg._html_to_text, read_mhtml and epub._extract_chapter are under symbolic contracts
+    # (contracts/C17_glue.py) since round 3 -- the former shape checks broke on helper extraction / import style.
     # get_text only reads what handle_data/handle_*tag stored (joins text_parts)
     gt = e.functions.get(f"{ECLS}.get_text")
     ok = gt is not None and not [n for n in ast.walk(gt) if isinstance(n, ast.Attribute) and isinstance(n.ctx, ast.Store)] \
